@@ -580,7 +580,7 @@ fn check_many_queries(case: &(u64, u64), p: &mut Probe) -> Check {
         let mut on_forest = 0u64;
         // scripted part: the number of local searches this thread has made is known exactly
         let mut count = 0u64;
-        let mut ask = |h: &ldpc_toolbox::sparse::SparseMatrix, node: Node, bound: Option<usize>, want: Option<usize>, count: &mut u64| -> Result<(), String> {
+        let ask = |h: &ldpc_toolbox::sparse::SparseMatrix, node: Node, bound: Option<usize>, want: Option<usize>, count: &mut u64| -> Result<(), String> {
             *count += 1;
             let got = std::panic::catch_unwind(std::panic::AssertUnwindSafe(|| match bound {
                 Some(b) => h.girth_at_node_with_max(node, b),
